@@ -276,16 +276,18 @@ def _check_case(ev, F, P1, V1, t1, W, Ps, Vs, g_vec, K, problems) -> None:
                                                  f'{(v1 / g)!r}; the stated right-hand side is {acc!r}')[:600])
 
 
-def check_initial_state(prog: Program, rep, F: IntegrateFacts) -> None:
-    tc = F.mod
+def init_trajectory_state(prog: Program, extra_hooks=None, ammo_attrs=None):
+    """_init_trajectory evaluated on a shot whose every quantity is a symbol in a unit other than the internal one.
+    Returns (ev, st, selfv, shot)."""
+    tc = prog.module(C.M_TC)
     tcc = prog.cls(C.M_TC, 'TrajectoryCalc')
     cfgc = prog.cls(C.M_TC, 'Config')
     it = prog.func(C.M_TC, 'TrajectoryCalc._init_trajectory')
-    rep.saw(it)
 
     def construct_sock(ev_, ci, args, kwargs, st):
         return SymObj('wind_sock')
-    ev = Evaluator(prog, hooks={'construct:_WindSock': construct_sock, **C.no_wrap_hooks(), **C.pref_hooks(prog)},
+    ev = Evaluator(prog, hooks={'construct:_WindSock': construct_sock, **C.no_wrap_hooks(), **C.pref_hooks(prog),
+                                **(extra_hooks or {})},
                    opaque={'calculate_curve', '_get_only_mach_data', 'winds', 'setup_seen_zero'})
     st = State()
     ctx = Ctx(tc, None, None, 0)
@@ -295,7 +297,7 @@ def check_initial_state(prog: Program, rep, F: IntegrateFacts) -> None:
         'diameter': q('Distance', 'dia_raw', 'Centimeter'), 'weight': q('Weight', 'wt_raw', 'Gram')})
     ammo = ev.new_inst(st, prog.cls(C.M_MUN, 'Ammo'), {
         'dm': dm, 'mv': q('Velocity', 'mv_raw', 'KMH'), 'powder_temp': q('Temperature', 'pt_raw', 'Celsius'),
-        'temp_modifier': S('tm'), 'use_powder_sensitivity': Const(False)})
+        'temp_modifier': S('tm'), 'use_powder_sensitivity': Const(False), **(ammo_attrs or {})})
     weapon = ev.new_inst(st, prog.cls(C.M_MUN, 'Weapon'), {
         'sight_height': q('Distance', 'sh_raw', 'Centimeter'), 'twist': q('Distance', 'tw_raw', 'Millimeter'),
         'zero_elevation': q('Angular', 'zero', 'MOA'), 'sight': NONE})
@@ -313,6 +315,14 @@ def check_initial_state(prog: Program, rep, F: IntegrateFacts) -> None:
         raise AnalysisError(f'_init_trajectory: {exc}') from exc
     if isinstance(r, Raised):
         raise AnalysisError('_init_trajectory raises in the abstract evaluation')
+    return ev, st, selfv, shot
+
+
+def check_initial_state(prog: Program, rep, F: IntegrateFacts) -> None:
+    tc = F.mod
+    it = prog.func(C.M_TC, 'TrajectoryCalc._init_trajectory')
+    rep.saw(it)
+    ev, st, selfv, shot = init_trajectory_state(prog)
     h = st.heap[selfv.oid]
 
     def raw_in(dim, sym, unit):
